@@ -362,29 +362,36 @@ def removeLooseAll : List Ref → Prog → Prog
   | [], k => k
   | r :: rs, k => sRemoveR r fun _ => removeLooseAll rs k
 
-/-- `_prune_loose_ref` for each packed ref: take `<ref>.lock` (skip the ref when it is busy), re-read the loose
-file, unlink it only if it still holds the packed value, release the lock -/
-def pruneLoose : List (Ref × Sha) → Prog → Prog
+/-- the loose files of the refs just written to packed-refs, one after the other: with `recheck`
+(`prune_only_if_unchanged`) and a target, `_prune_loose_ref` — take `<ref>.lock` (skip the ref when it is busy),
+re-read the loose file, unlink it only if it still holds the packed value, release the lock; otherwise an
+unconditional `os.remove` (errors suppressed) -/
+def pruneLoose (recheck : Bool) : List (Ref × Option Sha) → Prog → Prog
   | [], k => k
-  | (r, s) :: rest, k =>
-    sOpenX r fun ok =>
-      if !ok then pruneLoose rest k else
-      sOpenR r fun v =>
-        if v = some (Val.sha s) then sRemoveR r fun _ => sRemoveL r fun _ => pruneLoose rest k
-        else sRemoveL r fun _ => pruneLoose rest k
+  | (r, some s) :: rest, k =>
+    if recheck then
+      sOpenX r fun ok =>
+        if !ok then pruneLoose recheck rest k else
+        sOpenR r fun v =>
+          if v = some (Val.sha s) then sRemoveR r fun _ => sRemoveL r fun _ => pruneLoose recheck rest k
+          else sRemoveL r fun _ => pruneLoose recheck rest k
+    else sRemoveR r fun _ => pruneLoose recheck rest k
+  | (r, none) :: rest, k => sRemoveR r fun _ => pruneLoose recheck rest k
 
-/-- `DiskRefsContainer.add_packed_refs(new)` for a non-empty list of (name, sha) -/
-def addPackedRefs (vr : Variant) (new : List (Ref × Sha)) (c : Cache) (k : Outcome → Cache → Prog) : Prog :=
+/-- `DiskRefsContainer.add_packed_refs(new, prune_only_if_unchanged=recheck)` for a non-empty mapping
+(name ↦ sha, or `none` = remove the ref) -/
+def addPackedRefs (vr : Variant) (recheck : Bool) (new : List (Ref × Option Sha)) (c : Cache)
+    (k : Outcome → Cache → Prog) : Prog :=
   sOpenXP fun ok =>
     if !ok then k (.exc .locked) Cache.empty else
     getPacked c fun m _ =>
-      let m' := new.foldl (fun acc e => pmSet acc e.1 e.2) m
+      let m' := new.foldl (fun acc e => match e.2 with
+        | some s => pmSet acc e.1 s
+        | none => pmErase acc e.1) m
       if vr.packRemovesLooseFirst then
         removeLooseAll (new.map (·.1)) (sFsyncP fun _ => sReplaceP m' fun _ => k .unit Cache.empty)
       else
-        sFsyncP fun _ => sReplaceP m' fun _ =>
-          if vr.packRecheck then pruneLoose new (k .unit Cache.empty)
-          else removeLooseAll (new.map (·.1)) (k .unit Cache.empty)
+        sFsyncP fun _ => sReplaceP m' fun _ => pruneLoose recheck new (k .unit Cache.empty)
 
 /-- `DiskRefsContainer.allkeys()` (HEAD, loose refs in refs/heads, packed names), in set order -/
 def allKeys (env : Env) (c : Cache) (k : List Ref → Cache → Prog) : Prog :=
@@ -410,7 +417,7 @@ def packRefs (env : Env) (vr : Variant) (c : Cache) (k : Outcome → Cache → P
       match res with
       | none => k (.exc .symloop) c
       | some [] => k .unit c
-      | some new => addPackedRefs vr new c k
+      | some new => addPackedRefs vr vr.packRecheck (new.map fun e => (e.1, some e.2)) c k
 
 /-- `as_dict()`: SymrefLoop and KeyError are both skipped -/
 def resolveAllLenient : List Ref → List (Ref × Sha) → Cache → (List (Ref × Sha) → Cache → Prog) → Prog
@@ -479,6 +486,7 @@ inductive Op where
   | rm (name : Ref) (old : Option (Option Val))
   | symref (name other : Ref)
   | pack
+  | unpack (r : Ref)                                  -- add_packed_refs({r: None}): remove the ref
   | list
   | keys
   | commit (ref : Ref) (cid : Sha)                   -- WorkTree.commit protocol as coded
@@ -499,6 +507,7 @@ def compile (env : Env) (vr : Variant) (op : Op) (c : Cache) : Prog :=
   | .rm name old => removeIfEquals vr name old c k
   | .symref name other => setSymbolicRef name other c k
   | .pack => packRefs env vr c k
+  | .unpack r => addPackedRefs vr false [(r, none)] c k
   | .list => asDict env c k
   | .keys => keysOp env c k
   | .commit ref cid => commitOp vr ref cid vr.commitReads c k
@@ -579,6 +588,7 @@ def Op.target : Op → Ref
   | .add n _ => n
   | .rm n _ => n
   | .symref n _ => n
+  | .unpack r => r
   | .commit r _ => r
   | .commit1 r _ => r
   | _ => 0
